@@ -34,3 +34,6 @@ CHECKS["C10"] = check_unicode.run
 
 import check_figure
 CHECKS["C16"] = check_figure.run
+
+import check_validate
+CHECKS["C19"] = check_validate.run
